@@ -119,7 +119,7 @@ def rand_crystal(rng, **kw):
 
 
 NAMED = ('sc', 'fcc', 'bcc', 'diamond', 'hcp', 'square', 'tria', 'honey', 'lieb', 'kagome', 'omega', 'rumpled',
-         'dtria', 'b2', 'l12', 'tet', 'rect', 'tric', 'mono', 'p4m', 'p2', 'mono2')
+         'dtria', 'b2', 'l12', 'tet', 'rect', 'tric', 'mono', 'p4m', 'p2', 'mono2', 'dhcp', 'omega_perm')
 
 
 def named(name):
@@ -146,6 +146,11 @@ def named(name):
     if name == 'l12': return C(np.eye(3), [[np.zeros(3)], [np.array([0., .5, .5]), np.array([.5, 0., .5]),
                                                            np.array([.5, .5, 0.])]]), 1, 0.8
     if name == 'tet': return C(np.diag([1., 1., 1.3]), [np.zeros(3)]), 0, 1.35
+    if name == 'dhcp':  # double hcp, basis listed in stacking order A B A C: the two Wyckoff sets have interleaved site indices
+        return C(np.array([[.5, .5, 0.], [-np.sqrt(.75), np.sqrt(.75), 0.], [0., 0., 2 * np.sqrt(8. / 3.)]]),
+                 [np.array([0., 0., 0.]), np.array([1 / 3, 2 / 3, .25]), np.array([0., 0., .5]), np.array([2 / 3, 1 / 3, .75])]), 0, 1.01
+    if name == 'omega_perm':  # omega with the three-fold site listed in the middle: sitelist [[1], [0, 2]]
+        return C(hexl, [np.array([1 / 3, 2 / 3, 0.5]), np.zeros(3), np.array([2 / 3, 1 / 3, 0.5])]), 0, 0.7
     # low-symmetry crystals (point groups with an invariant axial vector: tensors need not be isotropic or even diagonal)
     if name == 'tric': return C(np.array([[1., 0.21, 0.17], [0., 0.93, 0.26], [0., 0., 1.08]]), [np.zeros(3)]), 0, 1.16
     if name == 'mono': return C(np.array([[1., 0.28, 0.], [0., 0.95, 0.], [0., 0., 1.12]]), [np.zeros(3)]), 0, 1.13
